@@ -41,7 +41,24 @@ def rand_text(rng, maxlen=12, alphabet=None, allow_semicolon=False) -> str:
     return s
 
 
-def rand_name(rng, used) -> str:
+def _library_names():
+    """Labware names the library itself defines (EVOware built-ins): a labware object carrying one of them is a labware
+    like any other for the volume tracking."""
+    names = ["Systemliquid", "Waste", "Wash Station"]
+    try:
+        from robotools.evotools.types import Labwares
+        names += [str(m.value) for m in Labwares]
+    except Exception:  # noqa: BLE001
+        pass
+    return sorted(set(names))
+
+
+def rand_name(rng, used, p_lib=0.06) -> str:
+    if rng.random() < p_lib:
+        n = rng.choice(_library_names())
+        if n not in used:
+            used.add(n)
+            return n
     while True:
         n = rng.choice(["P", "T", "plate", "stock", "Buffer", "MTP-96", "dil", "Rack_1", "Sample µ", "W"]) + str(rng.randint(0, 99))
         if n not in used:
@@ -74,7 +91,7 @@ def gen_plate(rng, used, profile) -> dict:
             if flat[i] > 0 and rng.random() < 0.4:
                 # an explicit None stands for "no name given": the default name applies
                 names[wid(i // cols, i % cols)] = rng.choice(["water", "glucose", "X", "buffer", "dye µ", None, None])
-    return {"kind": "plate", "name": rand_name(rng, used), "rows": rows, "cols": cols, "min": mn, "max": mx,
+    return {"kind": "plate", "name": rand_name(rng, used, profile.get("p_library_name", 0.06)), "rows": rows, "cols": cols, "min": mn, "max": mx,
             "init": init, "names": names}
 
 
@@ -99,9 +116,9 @@ def gen_trough(rng, used, profile) -> dict:
         names = {}
         if col_names is not None:
             names = {wid(0, c): nm for c, nm in enumerate(col_names[1]) if nm is not None}
-        return {"kind": "plate", "name": rand_name(rng, used), "rows": 1, "cols": cols, "vrows": vrows, "min": mn, "max": mx,
+        return {"kind": "plate", "name": rand_name(rng, used, profile.get("p_library_name", 0.06)), "rows": 1, "cols": cols, "vrows": vrows, "min": mn, "max": mx,
                 "init": ("V", list(flat)), "names": names}
-    return {"kind": "trough", "name": rand_name(rng, used), "vrows": vrows, "cols": cols, "min": mn, "max": mx,
+    return {"kind": "trough", "name": rand_name(rng, used, profile.get("p_library_name", 0.06)), "vrows": vrows, "cols": cols, "min": mn, "max": mx,
             "init": init, "col_names": col_names}
 
 
